@@ -149,10 +149,32 @@ def run_property(pid: str, tier: str, seed: int, write_lock=False, verbose=False
     spurious = []
     os.makedirs(os.path.join(VERIF, "replays"), exist_ok=True)
     seen_cids = set()
+    # known findings given as an *excluded witness condition* (flag): re-verify the function with the condition
+    # excluded; what then discharges fails only because of the listed finding, anything else is a new violation
+    flag_known = {}
+    for kf in known_here:
+        if not kf.get("flag") or not kf.get("function"):
+            continue
+        fn = kf["function"]
+        failing = [(r, ob) for r, ob in refuted if ob.func == fn]
+        if not failing:
+            continue
+        REG.flags[kf["flag"]] = True
+        try:
+            r2 = ex.verify(REG.contracts[fn])
+            discharge([r2], budget=budget, covers=False)
+        finally:
+            REG.flags[kf["flag"]] = False
+        still = {ob.coarse_id for ob in r2.obligations if ob.result and ob.result["result"] != "unsat"}
+        if r2.unsupported:
+            still = {ob.coarse_id for _, ob in failing}
+        for r, ob in failing:
+            if ob.coarse_id not in still:
+                flag_known[id(ob)] = kf
     for r, ob in refuted:
         cid = ob.coarse_id
         model = parse_model(ob.result.get("raw", ""))
-        kf = match_known(known_here, cid, ob, model, ex, r)
+        kf = flag_known.get(id(ob)) or match_known(known_here, cid, ob, model, ex, r)
         if kf is not None:
             if kf["id"] not in [k["id"] for k in known_hits]:
                 known_hits.append(kf)
@@ -198,7 +220,8 @@ def run_property(pid: str, tier: str, seed: int, write_lock=False, verbose=False
             violations.append((g.oid, path, "" if rep.get("status") == "reproduced" else " no-failing-input-found"))
 
     # ---- evidence ------------------------------------------------------------------------------------
-    known_obls = sorted({k["obligation"] for k in known_hits})
+    known_obls = sorted({k["obligation"] for k in known_hits if k.get("obligation")} |
+                        {ob.coarse_id for r_, ob in refuted if id(ob) in flag_known})
     n_total = total_ids - len([c for c in known_obls if c in coarse])
     n_dis = len([c for c in discharged_ids if c not in known_obls])
     full = (n_dis == n_total and not undecided and not violations and not vacuous and not missing)
@@ -289,6 +312,8 @@ def safe(s):
 
 def match_known(known_here, cid, ob, model, ex, r):
     for k in known_here:
+        if k.get("flag"):
+            continue
         if k.get("obligation") != cid:
             continue
         # a finding is identified by a witness condition over the obligation's path / model
